@@ -46,7 +46,12 @@ THEOREMS = [_T + n for n in [
     # fix C15-3 (nperseg clamped to the audio): the spectrogram theorems hold for every window length; the traced
     # (rational) form of the plan is the model's plan; the pre-repair (un-clamped) behaviour, clearly named
     "C15_stft_long_window", "C15_stft_plan_tuple",
-    "C15_stft_unclamped_factors", "C15_stft_unclamped_long_window", "C15_stft_unclamped_long_window_untruthful"]]
+    "C15_stft_unclamped_factors", "C15_stft_unclamped_long_window", "C15_stft_unclamped_long_window_untruthful",
+    # follow-up (histories and construction paths): options of compute_spectrogram, positional calls, sessions
+    "C15_stft_options_default", "C15_stft_options_truthful", "C15_stft_options_same_steps",
+    "C15_positional_binding", "C15_signatures_wellformed",
+    "C15_session_length", "C15_session_prefix", "C15_session_step", "C15_session_look",
+    "C15_loaded_exact", "C15_resample_exact_iff", "C15_session_truthful"]]
 LEVEL_TEXT = ("Lean theorems over the integer/rational model of load_clip, load_recording, resample and "
               "compute_spectrogram: a clip has exactly floor(duration x samplerate) frames, frame i is file frame "
               "floor(start x samplerate)+i (zero past the end) at time (offset+i)/samplerate and equals that frame and "
@@ -66,28 +71,75 @@ LEVEL_TEXT = ("Lean theorems over the integer/rational model of load_clip, load_
               "rational inputs by symbolic traces of the real load_clip, load_recording, create_time_range, "
               "create_range_dim, resample and compute_spectrogram regenerated and proved on every run (Tie 1b), the "
               "composition by differential runs on real WAV files and by the theorem-backed monitor `axisOk` evaluated "
-              "on the implementation's own coordinates.")
+              "on the implementation's own coordinates. Follow-up (histories and construction paths): the options of "
+              "compute_spectrogram are modelled (padded / boundary change only the number of segments and, without a "
+              "boundary extension, the first centre; both axes are exactly first + k x step, the steps / window / overlap / "
+              "frequency axis are those of the default call - C15_stft_options_default / _truthful / _same_steps); "
+              "positional calls bind as the documented signature table says (C15_positional_binding, "
+              "C15_signatures_wellformed; the table is tied to inspect.signature of the current source on every run); "
+              "sessions - arrays derived from one another in one process - have a Lean semantics (runSession): every "
+              "step is the base operation's model on the value its source had when it was produced, later steps never "
+              "change earlier values (C15_session_step, _prefix, _look, _length), and in every session in which resample "
+              "is applied only to arrays whose spacing is their advertised step (arrays from a file always are, "
+              "C15_loaded_exact; resampled ones iff nothing was truncated, C15_resample_exact_iff) every array produced - "
+              "loaded, resampled, sliced, looked at again, both axes of every spectrogram for every padded / boundary - "
+              "is truthful (C15_session_truthful).")
 LEVEL_NOTE = ("Unmodelled: soundfile I/O, scipy's STFT / resample numerics, numpy `arange` in floats (their contracts - "
               "seek+read with zero fill, segment count and times of stft, `t0 + dt*n/num*k` of resample - are formulas of "
               "the model and are compared on every run); binary64 rounding in front of `int()`/`floor` (inputs whose "
               "float products may fall into another integer cell than the exact ones are only monitored). The symbolic "
               "ties hold in ordered-field semantics (no rounding) and replace soundfile, np.arange, scipy.signal and "
-              "xarray constructors by recorders; the library part is tied by generator-bounded correspondence.")
+              "xarray constructors by recorders; the library part is tied by generator-bounded correspondence. "
+              "Histories are generator-bounded too: the Lean session semantics says what every array of a session must "
+              "be and that it never changes; that the code has no state between calls (caches, memos on Clip / array "
+              "objects, options kept in module state, arguments written to, results sharing buffers) is observed on "
+              "generated sessions / call sequences (every array handed out earlier is looked at again after every later "
+              "call: values, coordinates, attrs of the array and of its coordinates) and, for the four functions' own "
+              "statements, by the symbolic traces (which also check that the traced function wrote nothing into its "
+              "argument). Slices / copies are xarray's (`isel`, `copy`), modelled as the corresponding part of the axis. "
+              "Numeric argument types (int, float, numpy float64 / float32 / int64 / int32) and construction paths "
+              "(constructor, model_validate, JSON, model_copy, assignment) are exercised, not modelled: the model sees "
+              "the value.")
 TECHNIQUE = ("Lean 4 proof over model; symbolic traces of the audio functions' own arithmetic (floor / int / arange count "
-             "symbolic) proved equal to the model's plans for all inputs on every run; differential correspondence on "
-             "real WAV files (exact / round-once / tolerance); theorem-backed axis monitor on implementation output")
+             "symbolic) proved equal to the model's plans for all inputs on every run; signature table tied to "
+             "inspect.signature (Tie 1); differential correspondence on real WAV files (exact / round-once / tolerance) "
+             "for single calls, call sequences on shared objects and sessions of derived arrays judged by the Lean "
+             "session model; theorem-backed axis monitor on implementation output")
 RULE = ("clips x files (1-3 channels, 15 file rates incl. odd and power-of-two ones, expansion 1/2/10) on and off sample "
         "boundaries, past the end of file, zero length; exhaustive small scope; recordings; spectrogram and resample "
         "pipelines with whole and fractional numbers of samples, windows shorter than, as long as and longer than the "
-        "audio (exhaustive small scope around the clamp); non-trivial = the implementation returned an array "
-        "with at least one frame / coordinate; distinct = distinct (operation, input)")
+        "audio (exhaustive small scope around the clamp); recordings built directly whose expansion factor does not "
+        "divide the samplerate (44100/8, 22050/20, 96000/7, 48000/7, 8000/3, 16384/3; header = floor(samplerate/factor)); "
+        "tolerance-sized offsets (2^-10 .. 2^-40 of a sample) around floor(start x samplerate), floor(duration x "
+        "samplerate), the two int() of compute_spectrogram, scipy's noverlap >= nperseg and the trailing-point rule of "
+        "create_range_dim, at small and large offsets (20 000-frame files); sizes 15-17, 255-257, 1023-1025, 4095-4097; "
+        "every lattice point of non-dyadic axes (clip starts on every 0.01 s / 0.001 s, every hop 0.0001 .. 0.01 s, every "
+        "input length 2 .. 300 of 44100 -> 16000); options of compute_spectrogram (padded x boundary x window x detrend, "
+        "pairwise) x window shorter / as long as / longer than the audio x whole / fractional hops; every public function "
+        "called by keyword, positionally in the documented order and mixed; numbers as int / float / numpy float64 / "
+        "float32 / int64 / int32; Clip / Recording from the constructor, model_validate, JSON, model_copy(update), "
+        "assignment; audio_dir as str / Path; arrays with coordinates registered in another order, transposed and "
+        "one-dimensional arrays (resample); histories: load_clip call sequences on shared / changed / copied Clip objects "
+        "with results edited by the caller and re-read after later calls (harness/history.py), sessions of derived arrays "
+        "(load -> spectrogram -> look again -> resample -> resample -> spectrogram, options followed by plain calls, a "
+        "result edited then the same call again, slices, copies; skeletons + random derivation graphs), every array "
+        "produced judged by the Lean session model and re-read after every later call; non-trivial = the implementation "
+        "returned an array with at least one frame / coordinate (a session: at least one step did); distinct = distinct "
+        "(operation, input)")
 TRUSTED = ["soundfile / libsndfile: `seek` + `read(frames, always_2d, fill_value=0)`; PCM_16 codes read back as code/32768",
            "scipy.signal.stft (segment count, `arange(nperseg/2, ...)/fs - (nperseg/2)/fs`, rfftfreq) and "
            "scipy.signal.resample (`t[0] + (t[1]-t[0]) * n/num * arange(num)`): formulas restated in the model, compared each run",
            "xarray: a coordinate whose length differs from the data raises ValueError",
            "Recording.from_file: samplerate = int(file rate x expansion), duration = frames / file rate / expansion (monitored contract)",
            "fix C16-1 (guard for an empty range in create_range_dim) is assumed present: a zero-length clip loads as an empty array",
-           "scipy.signal.stft raises ValueError for noverlap >= nperseg (also for the window shortened to the audio): both sides raise"]
+           "scipy.signal.stft raises ValueError for noverlap >= nperseg (also for the window shortened to the audio): both sides raise",
+           "scipy.signal.stft with padded=False / boundary in (even, odd, constant, None): segment count "
+           "(len [+ 2 (nperseg//2)] [+ padding] - noverlap) // (nperseg - noverlap), first centre nperseg/2 samples after "
+           "the start when there is no boundary extension (formulas of the model, compared each run)",
+           "xarray: `isel(time=slice(a, b))` keeps that part of the coordinate and its attrs; `copy(deep=True)` copies; "
+           "DataArray / Variable constructors copy the attrs dict they are given",
+           "pydantic: Clip / Recording accept int, numpy scalars for float fields; model_validate / model_validate_json / "
+           "model_copy give equal objects"]
 ASSUMPTIONS = ["binary64 arithmetic is exact on the grids used (dyadic times with <= 24 fractional bits, integer rates < 2^22)",
                "float-safety classification `_same_cell`: model applied only where float and exact products share an integer cell",
                "truthfulness theorems of resample assume an input whose spacing is its advertised step (`hdt`); outside it "
@@ -97,7 +149,17 @@ ASSUMPTIONS = ["binary64 arithmetic is exact on the grids used (dyadic times wit
 NOT_COMPARED = ["spectrogram / resampled sample values (scipy numerics; the property pins the axes)",
                 "error messages; which exception a failed seek raises (any exception <-> model `seek`)",
                 "frame count / offsets on float-unsafe inputs (only the monitor runs there)",
-                "array attrs `window_size`, `hop_size` (they record the request, not an axis)"]
+                "array attrs `window_size`, `hop_size` (they record the request, not an axis)",
+                "which attrs an array carries besides the `step` of its coordinates (only that an array handed out "
+                "earlier still has the attrs it was produced with)",
+                "the first time coordinate of a spectrogram computed with boundary=None beyond: it lies inside the first "
+                "window and the axis is first + k x step (the model's value nperseg/2 samples after the start is compared "
+                "where the rational model applies)",
+                "the monitor's verdict on a resampled array whose *source's* spacing is not its advertised step, inside "
+                "sessions (known finding C15-2, judged by the operation resample_chain; the coordinates are still "
+                "compared with the model)",
+                "the trailing-point rule of create_range_dim for stored durations that contradict the file (model "
+                "`shape` error vs array: left to the monitor)"]
 
 WAV_DIR = None
 
